@@ -16,14 +16,14 @@ def expected(d, cfg, kf5=False):
     I = common.impl()
     U = I.utils
     must_default = cfg.get("default_operator", "should") != "should"
-    nf = U.flatten_nested_fields_specs(U.normalize_nested_fields_specs(cfg.get("nested_fields")))
+    nf = es.norm_nested_leaves(cfg.get("nested_fields"))
     # a *declared* nested container is any key of the specification that has members
-    npref = set(es.declared_containers(U.normalize_nested_fields_specs(cfg.get("nested_fields"))))
+    npref = set(es.declared_containers(cfg.get("nested_fields") if isinstance(cfg.get("nested_fields"), dict) else {}))
     if kf5:
         npref = {k.rsplit(".", 1)[0] for k in nf}
-    of = U.normalize_object_fields_specs(cfg.get("object_fields"))
+    of = es.norm_object_spec(cfg.get("object_fields"))
     opref = {k.rsplit(".", 1)[0] for k in (of or [])}
-    sf = U.normalize_object_fields_specs(cfg.get("sub_fields"))
+    sf = es.norm_object_spec(cfg.get("sub_fields"))
 
     def walk(n, prefix):
         if n["c"] == "SearchField":
